@@ -549,6 +549,13 @@ func c23Enumerate(base c23Case, prefix []int, depth int) []c23Case {
 				env2.WriteBroken = false
 			}
 			v := len(evs) + len(out) // vary the variants deterministically
+			if e == c23EvOpenBad && len(evs) >= len(prefix) {
+				// every kind of unacceptable OPEN (peer AS / identifier / role or version) gets its own case
+				for k := 0; k < 3; k++ {
+					rec(c23MainLine(s, e, env2), env2, append(append([]c23Ev{}, evs...), c23Ev{Kind: e, Variant: k}))
+				}
+				continue
+			}
 			rec(c23MainLine(s, e, env2), env2, append(evs, c23Ev{Kind: e, Variant: v % 6}))
 		}
 	}
